@@ -411,11 +411,11 @@ func c06SchedScenarios(tier string) []*Scenario {
 		out = append(out, sc)
 	}
 	mk("K1-rotate-flusher", func(rec *Recorder) { rec.Set(1, "c", val(1, 0, "c", 0)); rec.Set(1, "a", val(1, 1, "a", 0)) }, false)
+	mk("K2-delete-rotate-flusher", func(rec *Recorder) { rec.Del(1, "a"); rec.Set(1, "b", val(1, 1, "b", 300)) }, false)
 	if tier != "quick" {
 		// the dumper walks 998 chunk slots (one lock each): ~35 000 schedules at one preemption
 		mk("K3-rotate-flusher-dumper", func(rec *Recorder) { rec.Set(1, "c", val(1, 0, "c", 0)); rec.Set(1, "a", val(1, 1, "a", 0)) }, true)
 	}
-	mk("K2-delete-rotate-flusher", func(rec *Recorder) { rec.Del(1, "a"); rec.Set(1, "b", val(1, 1, "b", 300)) }, false)
 	return out
 }
 
